@@ -65,8 +65,8 @@ LEAN = {"module": "Pygom.Props.C13", "extra_modules": ["Pygom.Props.C13Link"],
                      "Pygom.C13.matToVecSens_vecToMatSens", "Pygom.C13.vecToMatSens_matToVecSens",
                      "Pygom.C13.session_is_pure", "Pygom.C13.earlier_results_kept", "Pygom.C13.revisit_reproduces",
                      "Pygom.C13.instances_do_not_interact", "Pygom.C13.memo_keyed_on_point_counterexample"]}
-BUDGET = {"quick": {"points": 70, "timed": 16, "nP0": 10, "integrated": 20, "cython": 1},
-          "thorough": {"points": 1600, "timed": 320, "nP0": 200, "integrated": 260, "cython": 6}}
+BUDGET = {"quick": {"points": 70, "timed": 16, "nP0": 10, "integrated": 20, "cython": 1, "scaled": 32},
+          "thorough": {"points": 1600, "timed": 320, "nP0": 200, "integrated": 260, "cython": 6, "scaled": 640}}
 RULE = ("random model definitions (1-5 states, 1-5 parameters and parameter-free variants, every rate kind, derived parameters, "
         "explicit ODE terms; `points`/`nP0` autonomous, `timed` with periodic rates) at a random rational state/parameter point with "
         "random rational sensitivity values; both arrangements.  Every point case is a SESSION on the live instance (counts in the tag "
@@ -77,7 +77,15 @@ RULE = ("random model definitions (1-5 states, 1-5 parameters and parameter-free
         "parameter fewer / deepcopy) evaluated at the same numbers in between; `probe:revisit` - model.parameters re-assigned "
         "(`reassign:*` form) and restored; `probe:revisit-definition:*` - an event, transition, birth/death or ODE term added to the live "
         "model, compared with a fresh model of the final definition; `probe:kept` - all returned arrays and all argument objects compared "
-        "with their snapshots at the end.  A point case is non-trivial when jacobian and grad both have a non-zero entry and nS*nP >= 2 "
+        "with their snapshots at the end.  `scaled` point cases (32 quick / 640 thorough; tags scale:<regime>, scale:sens=<scale>; the others "
+        "carry scale:unit) put the same session on VALUE SCALES: the SIR(S) in absolute head counts (N = 1e5..1e9, beta = c/N, 1..250000 "
+        "infected, waning 1/180 per day .. 1/10 years per second), random polynomial-rate models with parameters 1e-12..1e-5 at states "
+        "1e4..1e10 (some states 0 / 1 / 1500), parameters 1e4..1e10 at states 1e-10..1e-4, per-second rates at O(1..4000) states, every "
+        "value on its own scale 1e-10..1e11; sensitivity values O(1), x1e-9..1e-6, x1e6..1e9, mixed, or the natural start (S = 0, S0 = I); "
+        "15% of them exactly 0.  EVERY value returned (all cases) is judged ENTRY BY ENTRY against the explicit index loops: "
+        "|got - want| <= 1e-10*|want| + 1e-13*(sum of the absolute values of the products the entry is the sum of) - no floor tied to the "
+        "size of the matrix or of the point (integer containers alone keep 1e-12 x size), so an entry of -5e-9 next to entries of 1e16 is "
+        "compared as strictly as any other and a structurally zero entry must be exactly 0.  A point case is non-trivial when jacobian and grad both have a non-zero entry and nS*nP >= 2 "
         "(nS >= 2 for parameter-free models); an integrated case when the integration succeeded and some sensitivity exceeds 1e-3")
 ASSUMPTIONS = ["PARTIAL: that the solution of the variational equations IS dx(t)/dtheta resp. dx(t)/dx0 (smooth dependence of ODE "
                "flows on parameters and initial values) is classical and not proved here; it is validated per run against finite "
@@ -86,6 +94,14 @@ ASSUMPTIONS = ["PARTIAL: that the solution of the variational equations IS dx(t)
                "derivatives they are named after (C03) and that second partials commute (C^2 right-hand side); symmetry of "
                "diff_jacobian is re-checked exactly on every generated model",
                "scipy DOP853 at rtol=atol=1e-12 approximates the flow to ~1e-10 on the short horizons used",
+               "tolerances: the direct oracle (explicit index loops) is entry-wise relative, 1e-10*|entry| + 1e-13*sum|terms|, three orders above "
+               "the rounding bound (#terms+1)*2^-53*sum|terms| of a sum of products formed in any order; the finite-difference cross-check keeps its "
+               "norm-based tolerance 1e-6*(1+max|rhs|+max|entry|) (it cannot resolve entries far below the largest one and is not asked to: it "
+               "guards the oracle's inputs diff_jacobian / grad_jacobian on the entries it resolves); the Lean tie keeps a floor 1e-9 x size of "
+               "(f,J,G) resp. (J,dJ/dx,dG/dx) x size of the point, because exact rationals do not tell how much cancellation happened inside an "
+               "entry of the float J, G - so a wrong entry far below the largest one shows as a VIOLATION without a mismatch; the integrated "
+               "cases (O(1) models, sensitivities O(1e-3..1e3)) keep 1e-5 relative to the largest sensitivity, the accuracy of the finite "
+               "differences of reference solutions they are compared with",
                "the direct oracle's inputs f, J, G, dJ/dx, dG/dx are the real evaluators called with float ndarrays (C03's subject), "
                "taken before the session or from fresh instances; float32 containers are not judged (numpy computes parts of the "
                "right-hand side in single precision: 1e-8 relative, inside no stated tolerance)"]
@@ -110,10 +126,10 @@ def _rat(rng, lo, hi, dens=(1, 2, 3, 4)):
     return Fraction(rng.randint(lo * d, hi * d), d)
 
 
-def gen_extra_op(r, states, params):
+def gen_extra_op(r, states, params, kinds=None):
     """something added to the live model later: an event, a legacy transition / birth-death, or an explicit ODE term,
     with a rate that is not linear in the states (so that J, dJ/dx and dG/dx all change)"""
-    kinds = [("mass", 4), ("saturating", 2), ("linear", 1)]
+    kinds = kinds or [("mass", 4), ("saturating", 2), ("linear", 1)]
     how = r.choice(["add_event", "add_event", "add_ode", "add_legacy"])
     if how == "add_ode":
         _, rate = gen.gen_rate(r, states, params, kinds)
@@ -127,7 +143,7 @@ def gen_extra_op(r, states, params):
     return {"op": "add_event", "rate": proc["rate"], "transitions": [gen.transition_json(t) for t in proc["transitions"]]}
 
 
-def gen_probes(r, states, params, tq, nP0_values=None):
+def gen_probes(r, states, params, tq, nP0_values=None, extra_kinds=None):
     """everything the session needs beyond the model and the first point; drawn from the case's own generator so that
     the case JSON determines the whole session"""
     nS, nP = len(states), len(params)
@@ -151,7 +167,7 @@ def gen_probes(r, states, params, tq, nP0_values=None):
     pr["reassign_keep"] = [r.random() < 0.5 for _ in range(nP)]        # partial dict: parameters left as they are
     if nP and all(pr["reassign_keep"]):
         pr["reassign_keep"][r.randrange(nP)] = False
-    extra = gen_extra_op(r, states, params or ["_c0"])
+    extra = gen_extra_op(r, states, params or ["_c0"], extra_kinds)
     if nP0_values is not None:
         extra = subst_params(extra, dict(nP0_values, _c0=Fraction(1, 3)))
     elif not params:
@@ -185,6 +201,97 @@ def make_point_case(r, nP0=False, backend="lambda", timed=False):
             "point": {k: str(v) for k, v in env.items() if not (nP0 and k not in meta["states"] and k != "t")},
             "svals": [str(_rat(r, -3, 3)) for _ in range(nz)], "nP0": nP0, "backend": backend}
     case["probes"] = gen_probes(r, meta["states"], meta["params"], env["t"], vals)
+    return case
+
+
+# ---- value scales ------------------------------------------------------------------------------------------------
+# The points above are O(1).  A model written in absolute head counts has per-capita rates of 1e-9 next to states of 1e8, one in
+# per-second units has rates of 3e-9, and the augmented Jacobian then has genuine entries of 5e-9 next to entries of 1e16
+# (d/dS of f_S = -beta*S*I is -beta*I; d/dx of G = S*I is 1e8).  In Sens.lean the entries are elements of a commutative ring and
+# `aug_jacobian_is_derivative` holds for every value: nothing in the model knows a "small" number.  The direct oracle therefore
+# judges every entry RELATIVELY (entry_close) and the generated points below cover the scales.
+SCALE_REGIMES = [("headcount-sir", 3), ("tiny-params-huge-states", 4), ("huge-params-tiny-states", 3), ("per-second", 2), ("mixed", 3)]
+POLY_KINDS = [("linear", 3), ("mass", 5)]
+
+
+def _mant(r):
+    return Fraction(r.randint(1, 99), r.choice([1, 10, 10, 7, 3]))
+
+
+def _pow10(r, lo, hi):
+    e = r.randint(lo, hi)
+    return Fraction(10) ** e if e >= 0 else Fraction(1, 10 ** (-e))
+
+
+def make_scaled_case(r):
+    """a point case whose parameters / states / sensitivity values live on very different scales (polynomial rates: the
+    right-hand side is at most quadratic in z, so the finite differences stay meaningful at any step)"""
+    regime = gen.wchoice(r, SCALE_REGIMES)
+    if regime == "headcount-sir":
+        abstract = {"decl_states": ["S", "I", "R"], "states": ["S", "I", "R"], "params": ["beta", "gamma"], "derived": [], "lims": None, "odes": [],
+                    "procs": [{"rate": E.mul(E.mul(E.var("beta"), E.var("S")), E.var("I")), "kind": "mass",
+                               "transitions": [{"type": "T", "origin": "S", "dest": "I", "mag": E.num(1)}]},
+                              {"rate": E.mul(E.var("gamma"), E.var("I")), "kind": "linear",
+                               "transitions": [{"type": "T", "origin": "I", "dest": "R", "mag": E.num(1)}]}]}
+        if r.random() < 0.5:
+            abstract["params"].append("mu")          # waning immunity R -> S, per second or per day
+            abstract["procs"].append({"rate": E.mul(E.var("mu"), E.var("R")), "kind": "linear",
+                                      "transitions": [{"type": "T", "origin": "R", "dest": "S", "mag": E.num(1)}]})
+        spec, meta = gen.make_spec(r, abstract, gen.ALL_ROUTES)
+        N = Fraction(10) ** r.randint(5, 9)
+        i0 = Fraction(r.choice([1, 1, 10, 1500, 250000]))
+        r0 = Fraction(r.choice([0, 0, 500, 100000]))
+        env = {"S": N - i0 - r0, "I": i0, "R": r0, "beta": Fraction(r.choice([3, 5, 12, 25]), 10) / N,
+               "gamma": Fraction(1, r.choice([3, 5, 7, 14])), "mu": Fraction(1, r.choice([180, 3650, 315360000])), "t": Fraction(r.randint(0, 36), 12)}
+    else:
+        spec, meta = gen.gen_model(r, allow_time=False, min_events=1, min_states=2, max_states=5, max_params=4, kinds=POLY_KINDS)
+        env = {}
+        for s_ in meta["states"]:
+            if regime == "tiny-params-huge-states":
+                v = _mant(r) * _pow10(r, 5, 8) if r.random() < 0.6 else Fraction(r.choice([0, 1, 1, 7, 1500]))
+            elif regime == "huge-params-tiny-states":
+                v = _mant(r) * _pow10(r, -9, -6)
+            elif regime == "per-second":
+                v = Fraction(r.randint(1, 4000), r.choice([1, 2, 3]))
+            else:
+                v = _mant(r) * _pow10(r, -9, 9)
+            env[s_] = v
+        for p_ in meta["params"]:
+            if regime in ("tiny-params-huge-states", "per-second"):
+                v = _mant(r) * _pow10(r, -11, -7)
+            elif regime == "huge-params-tiny-states":
+                v = _mant(r) * _pow10(r, 5, 8)
+            else:
+                v = _mant(r) * _pow10(r, -9, 9)
+            env[p_] = v
+        env["t"] = Fraction(r.randint(0, 36), 12)
+    nS, nP = len(meta["states"]), len(meta["params"])
+    sscale = r.choice(["unit", "tiny", "huge", "mixed", "zero-start"])
+    svals = []
+    for _ in range(nS * nP + nS * nS):
+        if sscale == "zero-start" or r.random() < 0.15:
+            v = Fraction(0)
+        else:
+            v = _rat(r, -3, 3)
+            if sscale == "tiny":
+                v *= _pow10(r, -9, -6)
+            elif sscale == "huge":
+                v *= _pow10(r, 6, 9)
+            elif sscale == "mixed":
+                v *= _pow10(r, -9, 9)
+        svals.append(v)
+    if sscale == "zero-start":
+        # the natural start of the initial-value system: S = 0, S0 = identity
+        for a in range(nS):
+            svals[nS * nP + a * nS + a] = Fraction(1)
+    case = {"kind": "point", "spec": spec, "meta": {"states": meta["states"], "params": meta["params"], "kinds": meta["kinds"]},
+            "point": {k: str(v) for k, v in env.items() if k in meta["states"] or k in meta["params"] or k == "t"},
+            "svals": [str(v) for v in svals], "nP0": False, "backend": "lambda", "scaled": {"regime": regime, "sens": sscale}}
+    case["probes"] = gen_probes(r, meta["states"], meta["params"], env["t"], None, extra_kinds=POLY_KINDS)
+    # a shorter session than the O(1) cases: two further float containers, the integer point in three
+    fl = [f for f in case["probes"]["forms"] if f[0] == "P"][:2]
+    it = [f for f in case["probes"]["forms"] if f[0] == "I"][:3]
+    case["probes"]["forms"] = fl + it
     return case
 
 
@@ -222,95 +329,142 @@ def make_cases(rng, tier, budget):
         cases.append(make_int_case(random.Random(rng.getrandbits(64)), nP0=(i % 7 == 6)))
     for i in range(budget.get("timed", 0)):
         cases.append(make_point_case(random.Random(rng.getrandbits(64)), timed=True))
+    for i in range(budget.get("scaled", 0)):
+        cases.append(make_scaled_case(random.Random(rng.getrandbits(64))))
     return cases
 
 
 def search_cases(rng, tier, budget):
-    return [make_point_case(random.Random(rng.getrandbits(64)), timed=(i % 4 == 3)) for i in range(3 * budget["points"])]
+    out = [make_point_case(random.Random(rng.getrandbits(64)), timed=(i % 4 == 3)) for i in range(3 * budget["points"])]
+    return out + [make_scaled_case(random.Random(rng.getrandbits(64))) for _ in range(3 * budget.get("scaled", 0))]
 
 
 # ---------------------------------------------------------------------------------------------------------
 # direct oracle: explicit index loops
 def expected_rhs(nS, nP, f, J, G, z, by_state):
-    """the documented layout, written with explicit loops (direct oracle)"""
+    """the documented layout, written with explicit loops (direct oracle).  Returns (values, magnitudes): the magnitude of an
+    entry is the sum of the absolute values of the terms it is the sum of - what its rounding error is proportional to"""
     out = np.zeros(nS + nS * nP)
+    mag = np.zeros(nS + nS * nP)
     out[:nS] = f
+    mag[:nS] = np.abs(f)
     for i in range(nS):
         for k in range(nP):
-            if by_state:
-                acc = G[i][k] + sum(J[i][l] * z[nS + l * nP + k] for l in range(nS))
-                out[nS + i * nP + k] = acc
-            else:
-                acc = G[i][k] + sum(J[i][l] * z[nS + k * nS + l] for l in range(nS))
-                out[nS + k * nS + i] = acc
-    return out
+            terms = [G[i][k]] + [J[i][l] * z[nS + (l * nP + k if by_state else k * nS + l)] for l in range(nS)]
+            r = nS + (i * nP + k if by_state else k * nS + i)
+            out[r] = sum(terms)
+            mag[r] = sum(abs(v) for v in terms)
+    return out, mag
 
 
 def expected_rhs_iv(nS, nP, f, J, G, z):
     out = np.zeros(nS + nS * nP + nS * nS)
-    out[:nS + nS * nP] = expected_rhs(nS, nP, f, J, G, z, False)
+    mag = np.zeros(nS + nS * nP + nS * nS)
+    out[:nS + nS * nP], mag[:nS + nS * nP] = expected_rhs(nS, nP, f, J, G, z, False)
     o = nS + nS * nP
     for i in range(nS):
         for k in range(nS):
-            out[o + k * nS + i] = sum(J[i][l] * z[o + k * nS + l] for l in range(nS))
-    return out
+            terms = [J[i][l] * z[o + k * nS + l] for l in range(nS)]
+            out[o + k * nS + i] = sum(terms)
+            mag[o + k * nS + i] = sum(abs(v) for v in terms)
+    return out, mag
 
 
 def expected_gs(nS, nP, DJ, z):
     """d/dx_c of (J.S)[i][k], by parameter: row k*nS+i, column c;  DJ[i*nS+l][c] = d2 f_i / dx_l dx_c"""
     out = np.zeros((nS * nP, nS))
+    mag = np.zeros((nS * nP, nS))
     for k in range(nP):
         for i in range(nS):
             for c in range(nS):
-                out[k * nS + i, c] = sum(DJ[i * nS + l][c] * z[nS + k * nS + l] for l in range(nS))
-    return out
+                terms = [DJ[i * nS + l][c] * z[nS + k * nS + l] for l in range(nS)]
+                out[k * nS + i, c] = sum(terms)
+                mag[k * nS + i, c] = sum(abs(v) for v in terms)
+    return out, mag
 
 
 def expected_jac(nS, nP, J, DJ, GJ, z, by_state):
     """entry (r, c) = d(component r of the augmented right-hand side)/d z_c, written out;  GJ[k*nS+i][c] = d G[i][k] / dx_c"""
     n = nS + nS * nP
     out = np.zeros((n, n))
+    mag = np.zeros((n, n))
     out[:nS, :nS] = J
+    mag[:nS, :nS] = np.abs(J)
     for i in range(nS):
         for k in range(nP):
             r = nS + (i * nP + k if by_state else k * nS + i)
             for c in range(nS):
-                out[r, c] = GJ[k * nS + i][c] + sum(DJ[i * nS + l][c] * z[nS + (l * nP + k if by_state else k * nS + l)] for l in range(nS))
+                terms = [GJ[k * nS + i][c]] + [DJ[i * nS + l][c] * z[nS + (l * nP + k if by_state else k * nS + l)] for l in range(nS)]
+                out[r, c] = sum(terms)
+                mag[r, c] = sum(abs(v) for v in terms)
             for l in range(nS):
                 out[r, nS + (l * nP + k if by_state else k * nS + l)] = J[i][l]
-    return out
+                mag[r, nS + (l * nP + k if by_state else k * nS + l)] = abs(J[i][l])
+    return out, mag
 
 
 def expected_jac_iv(nS, nP, J, DJ, GJ, z):
     o = nS + nS * nP
     n = o + nS * nS
     out = np.zeros((n, n))
-    out[:o, :o] = expected_jac(nS, nP, J, DJ, GJ, z, False)
+    mag = np.zeros((n, n))
+    out[:o, :o], mag[:o, :o] = expected_jac(nS, nP, J, DJ, GJ, z, False)
     for i in range(nS):
         for k in range(nS):
             r = o + k * nS + i
             for c in range(nS):
-                out[r, c] = sum(DJ[i * nS + l][c] * z[o + k * nS + l] for l in range(nS))
+                terms = [DJ[i * nS + l][c] * z[o + k * nS + l] for l in range(nS)]
+                out[r, c] = sum(terms)
+                mag[r, c] = sum(abs(v) for v in terms)
             for l in range(nS):
                 out[r, o + k * nS + l] = J[i][l]
-    return out
+                mag[r, o + k * nS + l] = abs(J[i][l])
+    return out, mag
 
 
 def expected_all(nS, nP, D, z, ziv):
-    """every observable of one mathematical point from the oracle inputs D = (f, J, G, DJ, GJ)"""
+    """every observable of one mathematical point from the oracle inputs D = (f, J, G, DJ, GJ):
+    kind -> value, and "mag:"+kind -> the entry-wise magnitudes (see expected_rhs)"""
     f, J, G, DJ, GJ = D["f"], D["J"], D["G"], D["DJ"], D["GJ"]
     ex = {}
     if nP >= 1:
         for bs in (False, True):
             a = ARR[bs]
-            ex["rhs:" + a] = expected_rhs(nS, nP, f, J, G, z, bs)
-            ex["sens:" + a] = ex["rhs:" + a][nS:]
-            ex["jac:" + a] = expected_jac(nS, nP, J, DJ, GJ, z, bs)
-        ex["gs"] = expected_gs(nS, nP, DJ, z)
-    ex["rhsIV"] = expected_rhs_iv(nS, nP, f, J, G, ziv)
-    ex["sensIV"] = ex["rhsIV"][nS:]
-    ex["jacIV"] = expected_jac_iv(nS, nP, J, DJ, GJ, ziv)
+            ex["rhs:" + a], ex["mag:rhs:" + a] = expected_rhs(nS, nP, f, J, G, z, bs)
+            ex["sens:" + a], ex["mag:sens:" + a] = ex["rhs:" + a][nS:], ex["mag:rhs:" + a][nS:]
+            ex["jac:" + a], ex["mag:jac:" + a] = expected_jac(nS, nP, J, DJ, GJ, z, bs)
+        ex["gs"], ex["mag:gs"] = expected_gs(nS, nP, DJ, z)
+    ex["rhsIV"], ex["mag:rhsIV"] = expected_rhs_iv(nS, nP, f, J, G, ziv)
+    ex["sensIV"], ex["mag:sensIV"] = ex["rhsIV"][nS:], ex["mag:rhsIV"][nS:]
+    ex["jacIV"], ex["mag:jacIV"] = expected_jac_iv(nS, nP, J, DJ, GJ, ziv)
     return ex
+
+
+# THE JUDGE of the direct oracle: entry by entry, relative.  An entry is a sum of a few products of floats (J, G, dJ/dx, dG/dx of
+# the real model times sensitivity values); the oracle and the code under test form the same sum in possibly another order, so
+# they differ by at most ~ (number of terms) * 2^-53 * (sum of |terms|) = a few 1e-16 * mag.  Tolerance: 1e-10*|entry| +
+# 1e-13*mag - three orders above that bound, and with NO floor tied to the size of the matrix or of the point: an entry of
+# -5e-9 next to entries of 1e16 (per-capita contact rate x head counts) is compared as strictly as any other, an entry that is
+# structurally zero must be returned as exactly 0, and entries of 1e25 raise no false alarm.
+REL_ENTRY, REL_MAG = 1e-10, 1e-13
+
+
+def entry_close(got, want, mag, floor=0.0):
+    got = np.asarray(got, float); want = np.asarray(want, float)
+    if got.shape != want.shape:
+        return False
+    return bool(np.all(np.abs(got - want) <= REL_ENTRY * np.abs(want) + REL_MAG * np.asarray(mag, float) + floor))
+
+
+def worst_entry(got, want, mag, floor=0.0):
+    got = np.asarray(got, float); want = np.asarray(want, float)
+    if got.shape != want.shape:
+        return "shape %s vs %s" % (got.shape, want.shape)
+    exc = np.abs(got - want) - (REL_ENTRY * np.abs(want) + REL_MAG * np.asarray(mag, float) + floor)
+    i = np.unravel_index(np.argmax(exc), exc.shape) if exc.size else ()
+    return "entry %s: got %.17g, expected %.17g (|diff| %.3e, allowed %.3e = 1e-10*|entry| + 1e-13*sum|terms|%s); largest entry of the result %.3g" % (
+        tuple(int(k) for k in i), got[i], want[i], abs(got[i] - want[i]), REL_ENTRY * abs(want[i]) + REL_MAG * np.asarray(mag, float)[i] + floor,
+        (" + %.1e" % floor) if floor else "", float(np.max(np.abs(want))) if want.size else 0.0)
 
 
 def _call(fn):
@@ -588,6 +742,10 @@ def run_point(case):
     tags += ["nS=%d" % nS, "nP=%d" % nP, "backend:" + backend] + ["rate:" + k for k in set(meta["kinds"])]
     timed = "periodic" in meta["kinds"]
     tags.append("time-dependent" if timed else "autonomous")
+    if case.get("scaled"):
+        tags += ["scale:" + case["scaled"]["regime"], "scale:sens=" + case["scaled"]["sens"]]
+    else:
+        tags.append("scale:unit")
     ex1 = exact_at(lr, env)
     if ex1 is None:
         return {"nontrivial": False, "mismatches": mism, "violations": viol, "tags": tags + ["undefined_point"]}
@@ -616,7 +774,8 @@ def run_point(case):
     # second parameter set (as before: every parameter moves)
     env2 = dict(env)
     for k, pn in enumerate(params):
-        env2[pn] = env[pn] * Fraction(3 + (k % 3), 2) + Fraction(1, 7 + k)
+        # (scaled cases: the second set stays on the scale of the first)
+        env2[pn] = env[pn] * Fraction(3 + (k % 3), 2) + (Fraction(0) if case.get("scaled") else Fraction(1, 7 + k))
     if pr["reassign"] == "partial-dict":
         for pn, keep in zip(params, pr["reassign_keep"]):
             if keep:
@@ -675,9 +834,11 @@ def run_point(case):
         mism.append({"what": "jacobian(x,t) vs Lean jacobianEqn", "detail": worst(Jn, to_float(fmat(Jq)))})
     if nP and not close_arr(Gn, to_float(fmat(Gq)), 1e-9, 1e-10 * scale):
         mism.append({"what": "grad(x,t) vs Lean gradEqn", "detail": worst(Gn, to_float(fmat(Gq)))})
-    if nS >= 2 and not close_arr(D1["DJ"], to_float(fmat(DJq)), 1e-9, 1e-10 * scale):
+    # (dJ/dx and dG/dx can be far larger than f, J, G - huge rate constants at tiny states -: their own scale for the floor)
+    scale_j = max(scale, 1.0 + max([abs(float(v)) for row in DJq for v in row] + [abs(float(v)) for row in GJq for v in row] + [0.0]))
+    if nS >= 2 and not close_arr(D1["DJ"], to_float(fmat(DJq)), 1e-9, 1e-10 * scale_j):
         mism.append({"what": "diff_jacobian(x,t) vs Lean diffJacobianEqn", "detail": worst(D1["DJ"], to_float(fmat(DJq)))})
-    if nP and nS >= 2 and not close_arr(D1["GJ"], to_float(fmat(GJq)), 1e-9, 1e-10 * scale):
+    if nP and nS >= 2 and not close_arr(D1["GJ"], to_float(fmat(GJq)), 1e-9, 1e-10 * scale_j):
         mism.append({"what": "grad_jacobian(x,t) vs Lean gradJacobianEqn", "detail": worst(D1["GJ"], to_float(fmat(GJq)))})
 
     zscale = 1.0 + float(np.max(np.abs(ziv)))
@@ -713,7 +874,10 @@ def run_point(case):
                 got_all[e["kind"]] = got
             if lean is not None and e["kind"] in lean:
                 matched = None
-                atol_l = 1e-9 * (scale_l or Dk["scale"]) * zs
+                # the Lean tie keeps a floor relative to the size of the objects involved (the exact rationals do not tell how
+                # much cancellation happened INSIDE an entry of the float J, G, dJ/dx, dG/dx); for the block Jacobians that is
+                # the size of J, dJ/dx, dG/dx, which at huge rate constants exceeds that of f, J, G
+                atol_l = 1e-9 * (max(scale_l or Dk["scale"], Dk["jscale"]) if isjac else (scale_l or Dk["scale"])) * zs
                 for vname, thunk in lean[e["kind"]]:
                     lo = thunk()
                     if lo.size == got.size and close_arr(got.ravel(), lo.ravel(), rtol, atol_l):
@@ -723,13 +887,23 @@ def run_point(case):
                     mism.append({"what": "%s vs Lean layout%s" % (label, what_suffix), "detail": worst(got.ravel(), lean[e["kind"]][0][1]().ravel())})
                 elif isjac:
                     tags.append("%s:model-variant=%s" % (e["sig"], matched))
-            tol_abs = 1e-8 * (Dk["jscale"] if isjac else Dk["scale"]) * zs
-            if not close_arr(got, want, 1e-8, tol_abs):
+            # DIRECT ORACLE: entry by entry, relative (entry_close).  The integer containers alone keep a floor of 1e-12 x (size of
+            # the objects): there the code under test evaluates f, J, G, ... on integers and the oracle on the same numbers as
+            # floats, which may round differently inside an entry (those points are O(1)..3e6 by construction)
+            mag = exp["mag:" + e["kind"]]
+            if isjac and mag.size == want.size:
+                mag = mag.reshape(want.shape)
+            floor = 1e-12 * (Dk["jscale"] if isjac else Dk["scale"]) * zs if is_int_form(form) else 0.0
+            if not entry_close(got, want, mag, floor):
                 if isjac:
                     what = "%s%s is not the derivative of its right-hand side (explicit index loops on jacobian, diff_jacobian, grad_jacobian)" % (label, what_suffix)
                 else:
                     what = "%s%s is not (f, J.S+G%s) in the documented layout" % (label, what_suffix, ", J.S0" if "IV" in e["kind"] else "")
-                ses.violation(what, sigb, worst(got, want) + " nS=%d nP=%d form=%s t=%s" % (nS, nP, form, tform))
+                # wrong-value class for the signature: only entries that the old norm-based tolerance (1e-8 x size of the objects x
+                # size of the point) would have let pass
+                only_small = got.shape == want.shape and close_arr(got, want, 1e-8, 1e-8 * (Dk["jscale"] if isjac else Dk["scale"]) * zs)
+                ses.violation(what, sigb + (":small-entries" if only_small else ""),
+                              worst_entry(got, want, mag, floor) + " nS=%d nP=%d form=%s t=%s" % (nS, nP, form, tform))
             if fd_on and e["via"] is None and e["kind"].startswith("jac"):
                 fd_todo.append((e, got, label, sigb))
         # finite differences of the real right-hand side LAST: they call the instance at other points (and would refresh a memo)
@@ -857,9 +1031,12 @@ def run_point(case):
             isjac = e["kind"].startswith("jac") or e["kind"] == "gs"
             if got.size == want.size:
                 got = got.reshape(want.shape)
-            if not close_arr(got, want, 1e-8, 1e-8 * (Dsib["jscale"] if isjac else Dsib["scale"]) * zscale):
+            smag = sexp["mag:" + e["kind"]]
+            if smag.size == want.size:
+                smag = smag.reshape(want.shape)
+            if not entry_close(got, want, smag):
                 ses.violation("%s of a second live instance (%s) evaluated between two calls of the first is not what its own f, J, G give"
-                              % (label, variant), sigb, worst(got, want))
+                              % (label, variant), sigb, worst_entry(got, want, smag))
         same_bits(first, visit(model, D1, P, "ndarray", "float", PRIMARY, ":after-sibling", " after a sibling instance was evaluated at the same numbers"),
                   "after a sibling instance (%s) was evaluated" % variant)
     # 4c. parameters re-assigned, then restored
